@@ -35,7 +35,7 @@ MIN_REACH = {'catalogs:save_catalog': 1, 'catalogs:write_catalog.<locals>.writer
 MIN_COUNTERS = {'roundtrips_aegean_reader': 100, 'roundtrips_direct_reader': 50, 'roundtrips_sqlite': 30,
                 'cells_float': 10000, 'cells_nan': 500, 'cells_minus1': 100, 'cells_int': 2000, 'cells_str': 2000,
                 'origin_hand': 5, 'origin_reload_csv': 3, 'origin_reload_fits': 2, 'origin_finder': 1,
-                'files_checked': 100, 'first_row_atypical_catalogues': 3}
+                'files_checked': 100, 'first_row_atypical_catalogues': 3, 'overwrites': 50}
 BATCHES_PER_JOB = 4
 
 TABLE_FORMATS = ['csv', 'tab', 'tex', 'vot', 'xml', 'fits']
@@ -322,6 +322,20 @@ def _viol(o, clause, wit):
 
 
 def _mechanism(clause, wit):
+    """mechanism key, a predicate over the witness alone"""
+    if clause == 'nan_not_preserved' and wit.get('read_type') == 'MaskedConstant':
+        return 'masked-cell-not-nan'                                   # D23
+    if clause == 'string_cell' and wit.get('format') == 'fits' and wit.get('read_type') in ('str', 'str_'):
+        w, r = wit.get('written', ''), wit.get('read', '')
+        w = w[w.find("'") + 1:w.rfind("'")]
+        r = r[r.find("'") + 1:r.rfind("'")]
+        f = wit.get('first_row_value', '')
+        f = f[f.find("'") + 1:f.rfind("'")]
+        if r and len(r) < len(w) and w.startswith(r) and len(r) == len(f):
+            return 'fits-string-width-first-row'                       # D26
+    if clause in ('int_cell', 'minus1_not_preserved') and wit.get('reader') == 'sqlite' and wit.get('read_type') == 'bytes' \
+            and wit.get('written_type', '').startswith('int') and wit.get('written_type') != 'int':
+        return 'sqlite-numpy-int-blob'                                 # D27
     return None
 
 
@@ -410,6 +424,12 @@ def _roundtrip_table(o, cat, exp, fmt, variant, workdir, ctx):
     try:
         with warnings.catch_warnings():
             warnings.simplefilter('ignore')
+            if variant == 'plain':
+                # the files already exist (other content, other order) when the catalogue is written: the
+                # second write must replace them
+                catalogs.save_catalog(base, copy.deepcopy(cat[::-1][:max(1, len(cat) - 1)]) + copy.deepcopy(cat[:1]),
+                                      meta=meta, prefix=prefix)
+                o.count('overwrites')
             catalogs.save_catalog(base, copy.deepcopy(cat), meta=meta, prefix=prefix)
     except Exception:
         _viol(o, 'raises', dict(ctx, format=fmt, where='save_catalog', traceback=traceback.format_exc()[-700:]))
@@ -474,6 +494,8 @@ def _roundtrip_db(o, cat, exp, fmt, workdir, ctx):
     try:
         with warnings.catch_warnings():
             warnings.simplefilter('ignore')
+            catalogs.save_catalog(path, copy.deepcopy(cat[::-1]), meta={'PROGRAM': 'other'})   # to be replaced
+            o.count('overwrites')
             catalogs.save_catalog(path, copy.deepcopy(cat), meta={'PROGRAM': 'aegmon'})
     except Exception:
         _viol(o, 'raises', dict(ctx, format=fmt, where='save_catalog', traceback=traceback.format_exc()[-700:]))
@@ -543,17 +565,17 @@ def cases(seed, tier):
             add('hand', recipe='random', n=n, mix=mix, seed=[0, 'tiny', n, mix[0]], variants=('plain',))
     add('finder', recipe='finder', nsrc=8, seed=[0, 'finder'])
     # --- seeded random sample
-    sizes = [1, 3, 10, 40, 150, 600] if quick else [1, 2, 3, 5, 10, 20, 40, 80, 150, 300, 600, 1200, 3000, 3000]
-    reps = 2 if quick else 4
+    sizes = [1, 3, 10, 40, 150, 600, 1500] if quick else [1, 2, 3, 5, 10, 20, 40, 80, 150, 300, 600, 1200, 3000, 3000]
+    reps = 4 if quick else 12
     for n in sizes:
         for k in range(reps):
-            origin = ('hand', 'reload_csv')[k % 2]
+            origin = ('hand', 'reload_csv', 'hand', 'reload_fits')[k % 4]
             add(origin, recipe='random', n=n, seed=[seed, 'random', n, k],
-                p_nan=[0.0, 0.05, 0.3][(k + n) % 3], p_extreme=[0.2, 0.6][k % 2],
+                p_nan=0.0 if origin == 'reload_fits' else [0.0, 0.05, 0.3][(k + n) % 3], p_extreme=[0.2, 0.6][k % 2],
                 variants=('plain', 'prefix_meta') if n <= 300 else ('plain',))
     for k in range(2 if quick else 6):
         add('reload_fits', recipe='clean', n=[5, 50, 200, 11, 23, 400][k], seed=[seed, 'clean', k])
-    for k in range(1 if quick else 6):
+    for k in range(2 if quick else 12):
         add('finder', recipe='finder', nsrc=6 + 2 * k, seed=[seed, 'finder', k])
     return out
 
